@@ -11,6 +11,8 @@ type IdCustomer int64
 
 // Customer is a primary table with an ID type, a unique column and a guard.
 // gomacro:SQL ADD UNIQUE(Email)
+// gomacro:SQL ADD CHECK (Tier IN (#[Tier.Basic], #[Tier.Premium], #[Tier.Deluxe], #[Tier.Legacy], #[Tier.Fan]))
+// gomacro:QUERY NickFans UPDATE Customer SET Nick = $val$ WHERE Tier = #[Tier.Fan];
 // gomacro:QUERY RenameCustomers UPDATE Customer SET Name = $val$ WHERE Tier = $sel$;
 // gomacro:QUERY RelabelCustomers UPDATE Customer SET Nick = $val$ WHERE (Name = $sel$ OR Email = $sel$) AND Tier = $lim$;
 type Customer struct {
@@ -121,4 +123,16 @@ type Catalog struct {
 	Sku     string
 	Variant int16
 	Page    int
+}
+
+// École and Élève: a foreign key field with a non-ASCII capital.
+type École struct {
+	Id  int64
+	Nom string
+}
+
+type Élève struct {
+	Id      int64
+	IdÉcole int64 `gomacro-sql-foreign:"École" gomacro-sql-on-delete:"CASCADE"`
+	Prénom  string
 }
